@@ -255,21 +255,34 @@ int main(int argc, char** argv)
     bf_all_max      = opt.geti("bf-all", 18);
     bf2_every       = opt.geti("bf2-every", 8);
     bool muts       = opt.geti("mutations", 1);
-    corpus          = wellformed_corpus(level, maxlen);
-    // tiny messages for the all-segmentations brute force
+    // order: the tiny message (all-segmentations brute force), the compact covering corpus, every mutation, and
+    // only then the (huge) full product - a deadline then cuts the least informative part
     {
         Msg t;
         t.bytes  = "GET / HTTP/1.1\r\n\r\n";
         t.expect = "REQ GET res=/ q=[] ver=1.1\nB \n";
         t.label  = "tiny";
-        corpus.insert(corpus.begin(), t);
+        corpus.push_back(t);
+    }
+    {
+        auto compact = wellformed_corpus(0, maxlen);
+        corpus.insert(corpus.end(), compact.begin(), compact.end());
     }
     if (muts)
     {
-        auto mu = mutations(base_messages());
+        auto mu       = mutations(base_messages());
         size_t stride = opt.geti("mut-stride", 1);
         for (size_t i = 0; i < mu.size(); i += stride)
             corpus.push_back(mu[i]);
+    }
+    if (level > 0)
+    {
+        auto full = wellformed_corpus(level, maxlen);
+        // interleave the product so that a cut run still spans methods, header sets and bodies
+        size_t strideFull = 97;
+        for (size_t off = 0; off < strideFull; ++off)
+            for (size_t i = off; i < full.size(); i += strideFull)
+                corpus.push_back(full[i]);
     }
     if (opt.kv.count("print"))
     {
